@@ -54,7 +54,10 @@ type Op struct {
 // last if it is enabled (else the lowest enabled one); v>0 = enabled[(v-1) mod
 // len(enabled)]. Beyond the end of the list every value is 0.
 type Case struct {
-	Engine   string     `json:"engine"` // "sched" | "free"
+	Engine string `json:"engine"` // "sched" | "free"
+	// Elem is the element type the queues are instantiated with: "" = reqmeta.Data (internal/reghttp, blob copy),
+	// "empty" = struct{} with the default Next, as cmd/regsync (type throttle struct{}) and cmd/regbot configure it.
+	Elem     string     `json:"elem,omitempty"`
 	Queues   []QueueCfg `json:"queues"`
 	Workers  [][]Op     `json:"workers"`
 	Schedule []int      `json:"schedule,omitempty"`
@@ -82,6 +85,13 @@ func (c *Case) normalise() {
 	}
 	for len(c.Workers) < 1 {
 		c.Workers = append(c.Workers, nil)
+	}
+	if c.Elem != "empty" {
+		c.Elem = ""
+	} else {
+		for i := range c.Queues {
+			c.Queues[i].Next = "" // regsync/regbot use the default priority function
+		}
 	}
 	if c.Procs < 1 {
 		c.Procs = 4
@@ -130,7 +140,7 @@ type worker struct {
 
 type run struct {
 	c       Case
-	qs      []*pqueue.Queue[reqmeta.Data]
+	qs      qset
 	max     []int
 	holders []atomic.Int32
 	ws      []*worker
@@ -146,18 +156,60 @@ type run struct {
 	yield func(w *worker, point string, op *Op)
 }
 
+// qset hides the element type of the queues under test from the interpreter.
+type qset interface {
+	acquire(ctx context.Context, q int, d reqmeta.Data) (func(), error)
+	try(ctx context.Context, q int, d reqmeta.Data) (func(), error)
+	// multi calls AcquireMulti; a list entry <0 is a nil queue.
+	multi(ctx context.Context, d reqmeta.Data, list []int) (context.Context, func(), error)
+}
+
+type qsetT[T any] struct {
+	qs   []*pqueue.Queue[T]
+	conv func(reqmeta.Data) T
+}
+
+func (s *qsetT[T]) acquire(ctx context.Context, q int, d reqmeta.Data) (func(), error) {
+	return s.qs[q].Acquire(ctx, s.conv(d))
+}
+
+func (s *qsetT[T]) try(ctx context.Context, q int, d reqmeta.Data) (func(), error) {
+	return s.qs[q].TryAcquire(ctx, s.conv(d))
+}
+
+func (s *qsetT[T]) multi(ctx context.Context, d reqmeta.Data, list []int) (context.Context, func(), error) {
+	l := make([]*pqueue.Queue[T], len(list))
+	for i, q := range list {
+		if q >= 0 {
+			l[i] = s.qs[q]
+		}
+	}
+	return pqueue.AcquireMulti(ctx, s.conv(d), l...)
+}
+
 func newRun(c Case) *run {
 	r := &run{c: c, events: map[string]int{}}
-	r.qs = make([]*pqueue.Queue[reqmeta.Data], len(c.Queues))
 	r.max = make([]int, len(c.Queues))
 	r.holders = make([]atomic.Int32, len(c.Queues))
 	for i, qc := range c.Queues {
-		o := pqueue.Opts[reqmeta.Data]{Max: qc.Max}
-		if qc.Next == "data" {
-			o.Next = reqmeta.DataNext
-		}
-		r.qs[i] = pqueue.New(o)
 		r.max[i] = qc.Max
+	}
+	if c.Elem == "empty" {
+		qs := &qsetT[struct{}]{conv: func(reqmeta.Data) struct{} { return struct{}{} }}
+		for _, qc := range c.Queues {
+			qs.qs = append(qs.qs, pqueue.New(pqueue.Opts[struct{}]{Max: qc.Max}))
+		}
+		r.qs = qs
+	} else {
+		qs := &qsetT[reqmeta.Data]{conv: func(d reqmeta.Data) reqmeta.Data { return d }}
+		for _, qc := range c.Queues {
+			o := pqueue.Opts[reqmeta.Data]{Max: qc.Max}
+			if qc.Next == "data" {
+				o.Next = reqmeta.DataNext
+			}
+			qs.qs = append(qs.qs, pqueue.New(o))
+		}
+		r.qs = qs
 	}
 	for i, p := range c.Workers {
 		w := &worker{id: i, prog: p, resume: make(chan struct{}), point: "start"}
@@ -246,7 +298,7 @@ func (r *run) data(op *Op) reqmeta.Data {
 }
 
 func (r *run) qIndex(x int) int {
-	n := len(r.qs)
+	n := len(r.max)
 	x %= n
 	if x < 0 {
 		x += n
@@ -304,23 +356,23 @@ func (r *run) exec(w *worker, op *Op) {
 			r.event("op:acq-with-cancelled-ctx")
 		}
 		r.enter(w, "acq", []int{q})
-		rel, err := r.qs[q].Acquire(ctx, r.data(op))
+		rel, err := r.qs.acquire(ctx, q, r.data(op))
 		r.leave(w)
 		r.event("op:acq")
 		r.afterAcquire(w, "Acquire", ctx, []int{q}, rel, err, nil)
 	case "try":
 		r.doTry(w, op, r.qIndex(op.Q))
 	case "multi":
-		var list []*pqueue.Queue[reqmeta.Data]
+		var list []int
 		seen := map[int]bool{}
 		var distinct []int
 		for _, x := range op.Qs {
 			if x < 0 {
-				list = append(list, nil)
+				list = append(list, -1)
 				continue
 			}
 			q := r.qIndex(x)
-			list = append(list, r.qs[q])
+			list = append(list, q)
 			if !seen[q] {
 				seen[q] = true
 				distinct = append(distinct, q)
@@ -334,7 +386,7 @@ func (r *run) exec(w *worker, op *Op) {
 		}
 		ctx := w.curCtx()
 		r.enter(w, "multi", distinct)
-		mctx, rel, err := pqueue.AcquireMulti(ctx, r.data(op), list...)
+		mctx, rel, err := r.qs.multi(ctx, r.data(op), list)
 		r.leave(w)
 		r.event("op:multi")
 		if len(distinct) > 1 {
@@ -367,10 +419,10 @@ func (r *run) exec(w *worker, op *Op) {
 		if op.K == "nested" {
 			// must return at once: the slot is already owned through the AcquireMulti context
 			r.enter(w, "nested", []int{q})
-			rel, err = r.qs[q].Acquire(h.mctx, r.data(op))
+			rel, err = r.qs.acquire(h.mctx, q, r.data(op))
 			r.leave(w)
 		} else {
-			rel, err = r.qs[q].TryAcquire(h.mctx, r.data(op))
+			rel, err = r.qs.try(h.mctx, q, r.data(op))
 		}
 		r.event("op:" + op.K)
 		if err != nil {
@@ -430,7 +482,7 @@ func (r *run) exec(w *worker, op *Op) {
 func (r *run) doTry(w *worker, op *Op, q int) {
 	ctx := w.curCtx()
 	w.curQs, w.curOp = []int{q}, "try"
-	rel, err := r.qs[q].TryAcquire(ctx, r.data(op))
+	rel, err := r.qs.try(ctx, q, r.data(op))
 	r.event("op:try")
 	if err != nil {
 		r.event("op:try-error")
@@ -507,16 +559,16 @@ func panicViolation(w *worker, p any) *evid.Violation {
 // drain is the final test: with every worker finished and everything released,
 // exactly max TryAcquire succeed on each queue and the next one is refused.
 func (r *run) drain() *evid.Violation {
-	for q := range r.qs {
+	for q := range r.max {
 		if n := r.holders[q].Load(); n != 0 {
 			return evid.V("harness-holder-count-nonzero", "internal: q%d holder count %d after all workers finished", q, n)
 		}
 	}
 	ctx := context.Background()
-	for q, pq := range r.qs {
+	for q := range r.max {
 		var rels []func()
 		for i := 0; i < r.max[q]+2; i++ {
-			rel, err := pq.TryAcquire(ctx, reqmeta.Data{})
+			rel, err := r.qs.try(ctx, q, reqmeta.Data{})
 			if err != nil {
 				return evid.V("drain-tryacquire-error", "q%d: TryAcquire on the idle queue failed: %v", q, err)
 			}
@@ -535,7 +587,7 @@ func (r *run) drain() *evid.Violation {
 			return evid.V("drain-slot-duplicated", "q%d (limit %d): after all workers finished %d TryAcquire succeeded", q, r.max[q], len(rels))
 		}
 		// once more after releasing the probes: the queue must be reusable
-		rel, _ := pq.TryAcquire(ctx, reqmeta.Data{})
+		rel, _ := r.qs.try(ctx, q, reqmeta.Data{})
 		if rel == nil {
 			return evid.V("drain-slot-lost", "q%d (limit %d): queue refuses TryAcquire after the drain probes were released", q, r.max[q])
 		}
@@ -547,7 +599,8 @@ func (r *run) drain() *evid.Violation {
 // describe renders the per-worker status for violation messages.
 func (r *run) describe(withHeld bool) string {
 	var sb strings.Builder
-	for q := range r.qs {
+	fmt.Fprintf(&sb, "elem=%q ", r.c.Elem)
+	for q := range r.max {
 		fmt.Fprintf(&sb, "q%d{max=%d next=%q holders=%d} ", q, r.max[q], r.c.Queues[q].Next, r.holders[q].Load())
 	}
 	for _, w := range r.ws {
